@@ -46,12 +46,12 @@ type Input struct {
 }
 
 type World struct {
-	Self  Tgt      `json:"self"`
-	Srcs  []Input  `json:"srcs,omitempty"`
-	Tools []Input  `json:"tools,omitempty"`
+	Self  Tgt         `json:"self"`
+	Srcs  []Input     `json:"srcs,omitempty"`
+	Tools []Input     `json:"tools,omitempty"`
 	Deps  [][2]string `json:"deps,omitempty"`
-	Graph []Tgt    `json:"graph"`
-	Root  string   `json:"root"`
+	Graph []Tgt       `json:"graph"`
+	Root  string      `json:"root"`
 }
 
 func (t Tgt) label() string { return "//" + t.Pkg + ":" + t.Name }
@@ -459,14 +459,14 @@ func (w *World) rolesOf(t *Tgt) roles {
 func (ro roles) declared() bool { return ro.plainSrc || ro.namedSrc || ro.epSrc || ro.tool || ro.dep }
 
 type expectation struct {
-	valid   bool   // the sequence names a dependency with the right shape: it must expand
-	skip    bool   // not a claim about dependency outputs (system tools, absolute paths)
-	words   int    // number of paths
-	inRepo  bool   // paths are relative to the repository root (out_ forms) rather than to the build directory
-	dirOf   string // for dir forms: a file that must exist below the directory
-	names   []string
-	shape   string // the known-finding shape this sequence has, if any
-	why     string
+	valid  bool   // the sequence names a dependency with the right shape: it must expand
+	skip   bool   // not a claim about dependency outputs (system tools, absolute paths)
+	words  int    // number of paths
+	inRepo bool   // paths are relative to the repository root (out_ forms) rather than to the build directory
+	dirOf  string // for dir forms: a file that must exist below the directory
+	names  []string
+	shape  string // the known-finding shape this sequence has, if any
+	why    string
 }
 
 func allOuts(b *built, t *Tgt) []string { return b.byLbl[t.label()].Outputs() }
@@ -650,47 +650,112 @@ type bashResult struct {
 	note    string
 }
 
-// askBash evaluates `set -- <text>` in dir and reports the words and which of them do not exist.
-func askBash(dir, text, below string) bashResult {
-	script := "set -- " + text + "\nprintf 'N %d\\n' $#\nfor f; do printf 'W %s\\n' \"$f\"; " +
-		"if [ -n \"$BELOW\" ]; then [ -e \"$f/$BELOW\" ] || printf 'M %s\\n' \"$f\"; else [ -e \"$f\" ] || printf 'M %s\\n' \"$f\"; fi; done\n"
-	c := exec.Command("/bin/bash", "--norc", "--noprofile", "-c", script)
-	c.Dir = dir
-	c.Env = []string{"PATH=/usr/bin:/bin", "HOME=/nonexistent-verif-home", "LANG=C", "BELOW=" + below}
-	out, err := c.CombinedOutput()
-	res := bashResult{ok: err == nil}
-	n := -1
-	for _, line := range strings.Split(string(out), "\n") {
-		switch {
-		case strings.HasPrefix(line, "N "):
-			fmt.Sscanf(line, "N %d", &n)
-		case strings.HasPrefix(line, "W "):
-			res.words = append(res.words, line[2:])
-		case strings.HasPrefix(line, "M "):
-			res.missing = append(res.missing, line[2:])
+type bashQuery struct {
+	dir, text, below string
+	e                expectation
+	cmd              string
+	js               any
+}
+
+// askBashAll: for every query, `eval "set -- <text>"` in its directory; reports the words and which of them do not
+// exist (for dir forms: under which `below` does not exist). One bash process; a syntax error stays inside its eval.
+func askBashAll(scratch string, qs []bashQuery) []bashResult {
+	res := make([]bashResult, len(qs))
+	if len(qs) == 0 {
+		return res
+	}
+	if err := os.MkdirAll(scratch, 0o755); err != nil {
+		panic(err)
+	}
+	for k, q := range qs {
+		for name, val := range map[string]string{"e": q.text, "d": q.dir, "b": q.below} {
+			if err := os.WriteFile(filepath.Join(scratch, fmt.Sprintf("%s%d", name, k)), []byte(val), 0o644); err != nil {
+				panic(err)
+			}
 		}
 	}
+	script := `k=0
+while [ $k -lt $NQ ]; do
+  IFS= read -r -d '' E < "$Q/e$k"; IFS= read -r -d '' D < "$Q/d$k"; IFS= read -r -d '' BELOW < "$Q/b$k"
+  cd "$D" || exit 9
+  printf 'Q %d\n' $k
+  if eval "set -- $E" 2>"$Q/err"; then
+    printf 'N %d\n' $#
+    for f; do printf 'W %s\n' "$f"
+      if [ -n "$BELOW" ]; then [ -e "$f/$BELOW" ] || printf 'M %s\n' "$f"; else [ -e "$f" ] || printf 'M %s\n' "$f"; fi
+    done
+  else
+    IFS= read -r -d '' X < "$Q/err"; printf 'X %s\n' "${X//$'\n'/ }"
+  fi
+  k=$((k+1))
+done
+`
+	c := exec.Command("/bin/bash", "--norc", "--noprofile", "-c", script)
+	c.Dir = scratch
+	c.Env = []string{"PATH=/usr/bin:/bin", "HOME=/nonexistent-verif-home", "LANG=C", "Q=" + scratch, fmt.Sprint("NQ=", len(qs))}
+	out, err := c.Output()
 	if err != nil {
-		res.note = "bash: " + strings.TrimSpace(string(out))
+		panic(fmt.Sprintf("bash oracle failed: %v\n%s", err, out))
 	}
-	if n < 0 {
-		res.ok = false
+	k := -1
+	for _, line := range strings.Split(string(out), "\n") {
+		switch {
+		case strings.HasPrefix(line, "Q "):
+			fmt.Sscanf(line, "Q %d", &k)
+		case k < 0:
+		case strings.HasPrefix(line, "N "):
+			res[k].ok = true
+		case strings.HasPrefix(line, "W "):
+			res[k].words = append(res[k].words, line[2:])
+		case strings.HasPrefix(line, "M "):
+			res[k].missing = append(res[k].missing, line[2:])
+		case strings.HasPrefix(line, "X "):
+			res[k].note = "bash: " + line[2:]
+		}
 	}
 	return res
 }
 
-// bashWords: the words bash makes of a text (for the tie of the model's splitter); ok=false on a syntax error.
-func bashWords(text string) ([]string, bool) {
-	script := "set -- " + text + "\nfor f; do printf '%s\\0' \"$f\"; done\n"
-	c := exec.Command("/bin/bash", "--norc", "--noprofile", "-c", script)
-	c.Dir = "/"
-	c.Env = []string{"PATH=/usr/bin:/bin", "HOME=/nonexistent-verif-home", "LANG=C"}
-	out, err := c.Output()
-	if err != nil {
-		return nil, false
+// bashWordsAll: the words bash makes of each text (for the tie of the model's splitter); ok=false when bash reports
+// an error. One bash process, in an empty scratch directory (random texts may contain redirections).
+func bashWordsAll(scratch string, texts []string) ([][]string, []bool) {
+	words, oks := make([][]string, len(texts)), make([]bool, len(texts))
+	if err := os.MkdirAll(filepath.Join(scratch, "cwd"), 0o755); err != nil {
+		panic(err)
 	}
-	ws := strings.Split(string(out), "\x00")
-	return ws[:len(ws)-1], true
+	for k, x := range texts {
+		if err := os.WriteFile(filepath.Join(scratch, fmt.Sprintf("e%d", k)), []byte(x), 0o644); err != nil {
+			panic(err)
+		}
+	}
+	script := `k=0
+while [ $k -lt $NQ ]; do
+  IFS= read -r -d '' E < "$Q/e$k"
+  if eval "set -- $E" 2>/dev/null </dev/null; then printf 'N\0'; for f; do printf 'W%s\0' "$f"; done; else printf 'X\0'; fi
+  k=$((k+1))
+done
+`
+	c := exec.Command("/bin/bash", "--norc", "--noprofile", "-c", script)
+	c.Dir = filepath.Join(scratch, "cwd")
+	c.Env = []string{"PATH=/nonexistent-verif-path", "HOME=/nonexistent-verif-home", "LANG=C", "Q=" + scratch, fmt.Sprint("NQ=", len(texts))}
+	out, _ := c.Output()
+	k := -1
+	for _, rec := range strings.Split(string(out), "\x00") {
+		switch {
+		case rec == "N":
+			k++
+			oks[k] = true
+		case rec == "X":
+			k++
+		case strings.HasPrefix(rec, "W") && k >= 0:
+			words[k] = append(words[k], rec[1:])
+		}
+	}
+	if k != len(texts)-1 {
+		panic(fmt.Sprintf("bash splitter oracle answered %d of %d texts", k+1, len(texts)))
+	}
+	os.RemoveAll(scratch)
+	return words, oks
 }
 
 // ---------------------------------------------------------------------------------------------------------------
@@ -722,6 +787,33 @@ func main() {
 	})
 }
 
+type corpusWorld struct {
+	w    func(root string) *World
+	seqs []seq
+}
+
+// corpus: one world per known finding (DESIGN.md: the corpus is always run first), with valid neighbours.
+var corpus = []corpusWorld{
+	{func(root string) *World {
+		return &World{Root: root, Self: Tgt{Pkg: "p", Name: "gen", Outs: []string{"gen.out"}},
+			Srcs:  []Input{{Kind: "label", Pkg: "p", Name: "sp"}, {Kind: "annot", Pkg: "p", Name: "named", Ann: "n1"}, {Kind: "file", Path: "real.txt"}, {Kind: "label", Pkg: "p", Name: "semi"}},
+			Tools: []Input{{Kind: "label", Pkg: "p", Name: "tool"}, {Kind: "syspath", Path: "bash"}},
+			Deps:  [][2]string{{"q/r", "far"}},
+			Graph: []Tgt{{Pkg: "p", Name: "sp", Outs: []string{"a b.txt"}}, {Pkg: "p", Name: "semi", Outs: []string{"se;mi.txt"}},
+				{Pkg: "p", Name: "named", Named: map[string][]string{"n1": {"n1.txt"}, "n2": {"n2.txt"}}},
+				{Pkg: "p", Name: "tool", Outs: []string{"bin/t.sh"}, Eps: map[string]string{"main": "bin/t.sh"}, Binary: true},
+				{Pkg: "q/r", Name: "far", Outs: []string{"far1.txt", "far2.txt"}},
+				{Pkg: "p", Name: "other", Outs: []string{"other.txt"}}}}
+	}, []seq{{"location", ":sp"}, {"location", ":semi"}, {"locations", ":named"}, {"location", "real.txt"}, {"location", "unreal.txt"},
+		{"exe", ":tool|main"}, {"exe", ":tool"}, {"out_exe", ":tool|main"}, {"locations", "//q/r:far"}, {"location", "//q/r:far"},
+		{"location", ":other"}, {"location", ":gen"}, {"exe", "bash"}, {"dir", "//q/r:far"}}},
+	{func(root string) *World {
+		return &World{Root: root, Self: Tgt{Pkg: "", Name: "gen", Outs: []string{"gen.out"}},
+			Srcs:  []Input{{Kind: "label", Pkg: "", Name: "rootdep"}, {Kind: "label", Pkg: "p", Name: "lib"}},
+			Graph: []Tgt{{Pkg: "", Name: "rootdep", Outs: []string{"r.txt"}}, {Pkg: "p", Name: "lib", Outs: []string{"libdir/inner.txt"}, Eps: map[string]string{"main": "libdir/inner.txt"}}}}
+	}, []seq{{"dir", ":rootdep"}, {"location", ":rootdep"}, {"out_dir", ":rootdep"}, {"location", "//p:lib|main"}, {"dir", "//p:lib|main"}, {"location", "//p:lib|nosuch"}}},
+}
+
 func inProcess(c *lib.Ctx) {
 	nworlds := c.Scale(30, 900)
 	cwd, _ := os.Getwd()
@@ -740,13 +832,19 @@ func inProcess(c *lib.Ctx) {
 		}
 		plain := i%2 == 1
 		w := genWorld(r, root, plain)
+		var fixed []seq
+		if i < len(corpus) { // the witnesses of the known findings and their valid neighbours, always run first
+			w, fixed = corpus[i].w(root), corpus[i].seqs
+			plain = false
+		}
 		b := build(w)
 		tmpAbs, layout := materialise(w, b)
 		cw := coqWorld(w, b)
 		c.Hist("world_names", map[bool]string{true: "plain", false: "with-metacharacters"}[plain])
 		c.Case(lib.App("CLayout", cw, lib.StrList(layout)), map[string]any{"world": w, "layout": layout}, fmt.Sprint("L", i), len(layout) > 0)
 
-		for _, s := range genSeqs(r, w, 10) {
+		pending := []bashQuery{}
+		for _, s := range append(fixed, genSeqs(r, w, 10-min(10, len(fixed)))...) {
 			cmd := s.text()
 			e := expect(w, b, s)
 			var o outcome
@@ -776,20 +874,24 @@ func inProcess(c *lib.Ctx) {
 				if e.inRepo {
 					dir = root
 				}
-				br := askBash(dir, o.Text, e.dirOf)
-				if !br.ok || len(br.words) != e.words || len(br.missing) > 0 {
-					cls := e.shape
-					if cls == "" && hasUnhandledSpecial(e.names) {
-						cls = "name-with-shell-char-outside-quote-set"
-					}
-					if cls == "" {
-						cls = "expansion-not-the-dependency-outputs"
-					}
-					c.Fail(cls, fmt.Sprintf("%s expands to %q: bash makes %d words %q (expected %d), missing %q %s", cmd, o.Text, len(br.words), br.words, e.words, br.missing, br.note), js)
-					c.Hist("oracle", "fails:"+cls)
-				} else {
-					c.Hist("oracle", "holds")
+				pending = append(pending, bashQuery{dir: dir, text: o.Text, below: e.dirOf, e: e, cmd: cmd, js: js})
+			}
+		}
+		// one bash process per world answers all the queries (each text is parsed by `eval`, as `bash -c` would)
+		for k, br := range askBashAll(filepath.Join(root, ".queries"), pending) {
+			q := pending[k]
+			if !br.ok || len(br.words) != q.e.words || len(br.missing) > 0 {
+				cls := q.e.shape
+				if cls == "" && hasUnhandledSpecial(q.e.names) {
+					cls = "name-with-shell-char-outside-quote-set"
 				}
+				if cls == "" {
+					cls = "expansion-not-the-dependency-outputs"
+				}
+				c.Fail(cls, fmt.Sprintf("%s expands to %q: bash makes %d words %q (expected %d), missing %q %s", q.cmd, q.text, len(br.words), br.words, q.e.words, br.missing, br.note), q.js)
+				c.Hist("oracle", "fails:"+cls)
+			} else {
+				c.Hist("oracle", "holds")
 			}
 		}
 		// composite commands: several sequences, text around them, escaped dollars
@@ -826,6 +928,7 @@ func inProcess(c *lib.Ctx) {
 // splitterTie: the model's conservative shell_words against bash itself.
 func splitterTie(c *lib.Ctx) {
 	n := c.Scale(60, 600)
+	texts, safes := []string{}, []bool{}
 	alphabet := []string{"a", "b", "/", ".", "-", "_", " ", " ", "\t", "\"", "\"", ";", "|", "<", "$", "'", "*", "\\", "#", "=", "~", "x1", "\n", "(", ")", "&", "{", "}", "%", "?", "[", "`", ":", "@", "+", ",", "!", "]", "^"}
 	for i := 0; i < n; i++ {
 		r := c.Rng.Fork()
@@ -851,7 +954,14 @@ func splitterTie(c *lib.Ctx) {
 				text += lib.Pick(r, alphabet)
 			}
 		}
-		words, ok := bashWords(text)
+		texts, safes = append(texts, text), append(safes, safe)
+	}
+	allWords, oks := bashWordsAll(filepath.Join(c.Out, "split"), texts)
+	for i, text := range texts {
+		words, ok, safe := allWords[i], oks[i], safes[i]
+		if words == nil {
+			words = []string{}
+		}
 		if !ok {
 			words = []string{"<bash: error>"}
 			safe = false
